@@ -107,6 +107,8 @@ def enum_grow(big):
 
 
 LONG_LENGTHS = list(range(1000, 1026)) + list(range(2040, 2051)) + list(range(4090, 4101)) + [5000, 10000]
+from checks.c05 import VS_SOURCE
+LONG_LENGTHS = LONG_LENGTHS + [n for n in VS_SOURCE if n not in LONG_LENGTHS and n > 1025]
 
 
 def long_piece(L, digit=7):
